@@ -16,7 +16,7 @@ EXPLANATION = ('In pyvc every operation that can raise is an obligation unless c
                'The remaining sub-matchers are exercised on the bounded corpus (odd attribute values, detached fragments, multi-rooted soups, malformed type/min/max/value).')
 LEVEL_TEXT = EXPLANATION
 TECHNIQUE = 'no-raise and variant obligations generated from the real ASTs (z3) + bounded sweep for the functions still under assumed contracts'
-TIMEOUT_MS = {'quick': 20000, 'thorough': 120000}
+TIMEOUT_MS = {'quick': 30000, 'thorough': 120000}
 MUSTFAIL_PER_FN = {'quick': 1, 'thorough': 4}
 
 FUNCTIONS = FUNCTIONS + [M + '__init__', N + 'assert_valid_input']
@@ -34,6 +34,6 @@ FUNCTIONS = FUNCTIONS + [M + 'match_contains']
 
 FUNCTIONS = FUNCTIONS + [q for q in KIDS if q not in FUNCTIONS]
 
-VALIDATION = [validate_bs4]
+VALIDATION = [validate_bs4, validate_ir]
 
 FUNCTIONS = FUNCTIONS + [q for q in CACHE + LANG + INDET[:2] + DIRFN if q not in FUNCTIONS]
